@@ -401,3 +401,100 @@ def rule_N6(ctx):
         elif f["name"].startswith("ok_"):
             r.neg_control(f["name"], not sites)
     return r
+
+
+# --------------------------------------------------------------------------------------- N7
+# own-operation partiality: an arithmetic method answers None exactly when ITS result is not representable.  A method that
+# routes through a fallible integer primitive of another operation (a - b computed as a + (-b) with a checked negation)
+# inherits that step's failure domain: the intermediate overflows although the final result is representable.
+# method (public GarnishNumber name) -> families of fallible integer primitives whose failure coincides with the method's own
+N7_FAMILIES = {
+    "plus": {"add"}, "subtract": {"sub"}, "multiply": {"mul"}, "divide": {"div"}, "integer_divide": {"div"},
+    "remainder": {"rem"}, "power": {"pow", "mul"}, "absolute_value": {"abs", "neg"}, "opposite": {"neg", "sub"},
+    "increment": {"add"}, "decrement": {"sub"}, "bitwise_shift_left": {"shl"}, "bitwise_shift_right": {"shr"},
+    "bitwise_not": set(), "bitwise_and": set(), "bitwise_or": set(), "bitwise_xor": set(),
+}
+_N7_PREFIX = ("overflowing_", "checked_", "strict_")
+
+
+def _n7_family(defpath):
+    if not defpath or not defpath.startswith("core::num::<impl "):
+        return None
+    if defpath.split("<impl ")[1].split(">")[0] not in INT_TYS:
+        return None
+    nm = last(defpath)
+    for p in _N7_PREFIX:
+        if nm.startswith(p):
+            fam = nm[len(p):]
+            return {"div_euclid": "div", "rem_euclid": "rem", "next_power_of_two": "pow"}.get(fam, fam)
+    return None
+
+
+def n7_reach(F, root, same_file_only=True):
+    """fallible integer primitives (family, where, via) reachable from one method through workspace functions of the same file,
+    closures it builds and fn items it hands to helpers"""
+    file0 = root["span"].split(":")[0]
+    seen, st, out = set(), [(root, root["name"])], []
+    while st:
+        f, via = st.pop()
+        if f["path"] in seen:
+            continue
+        seen.add(f["path"])
+        for b in f["mir"]["blocks"]:
+            if b["cleanup"]:
+                continue
+            t = b["term"]
+            if t["k"] == "Call":
+                fam = _n7_family(t.get("def"))
+                if fam:
+                    out.append((fam, loc(t), via))
+                for ga in t.get("gargs", []):
+                    fam = _n7_family(ga.get("fn"))
+                    if fam:
+                        out.append((fam, loc(t), via))
+                    g = F.fns.get(ga.get("fn")) if ga.get("fn") else None
+                    if g is not None and g["span"].split(":")[0] == file0:
+                        st.append((g, via + " -> " + g["name"]))
+                for d in (t.get("resolved"), t.get("def")):
+                    g = F.fns.get(d) if d else None
+                    if g is not None and g["span"].split(":")[0] == file0:
+                        st.append((g, via + " -> " + g["name"]))
+            for s in b["stmts"]:
+                if s["k"] == "Assign" and s["rv"]["k"] == "Aggregate" and s["rv"].get("agg") == "Closure":
+                    d = s["rv"]["closure"]
+                    if d in F.fns:
+                        st.append((F.fns[d], via))
+    return out, seen
+
+
+def rule_N7(ctx):
+    F = ctx.F
+    r = RuleResult("N7", "own-operation partiality: no arithmetic method of the number implementation routes through a fallible integer primitive of a different operation (whose overflow would turn a representable result into None)")
+    roots, _scope = number_scope(F)
+    r.floor("GarnishNumber methods of SimpleNumber", len(roots), 17)
+    tabled = 0
+    for f in sorted(roots, key=lambda x: x["path"]):
+        allowed = N7_FAMILIES.get(f["name"])
+        if allowed is None:
+            r.info.append("method %s has no operation family (not an arithmetic method)" % f["name"])
+            continue
+        tabled += 1
+        prims, seen = n7_reach(F, f)
+        bad = sorted(set(fam for fam, _w, _v in prims if fam not in allowed))
+        r.examine(f["path"], True, {"method": f["name"], "own": sorted(allowed), "fallible_primitives": sorted(set(p[0] for p in prims)), "functions": len(seen)})
+        for fam in bad:
+            w, via = next((w, v) for fm, w, v in prims if fm == fam)
+            r.finding(f["path"], "foreign-partial-step:%s:%s" % (f["name"], fam), w,
+                      "`%s` reaches the fallible integer `%s` primitive (at %s via %s): when that intermediate step overflows the method answers None although its own result may be representable (e.g. x - MIN computed as x + (-MIN))" % (f["name"], fam, w, via))
+    r.floor("arithmetic methods with an operation family", tabled, 13)
+    for f in F.fns_in("gfixture::round3::n7::"):
+        if f["kind"] == "Closure" or "__" not in f["name"]:
+            continue
+        m = f["name"].split("_", 1)[1].split("__")[0]
+        prims, _s = n7_reach(F, f)
+        hit = any(fam not in N7_FAMILIES.get(m, set()) for fam, _w, _v in prims)
+        if f["name"].startswith("ctl_"):
+            r.control(f["name"], hit)
+        elif f["name"].startswith("ok_"):
+            r.neg_control(f["name"], not hit)
+    return r
